@@ -64,12 +64,13 @@ def chen_fold(pieces):
 
 def _ask_fn(obj, levy):
     def ask(ta, tb):
-        if levy == "none":
-            return obj(ta, tb), None, None
-        if levy == "space-time":
-            W, U = obj(ta, tb, return_U=True)
-            return W, U, None
-        return obj(ta, tb, return_U=True, return_A=True)
+        with B.cpu_watchdog():            # a search that never terminates becomes an exception (NonTermination)
+            if levy == "none":
+                return obj(ta, tb), None, None
+            if levy == "space-time":
+                W, U = obj(ta, tb, return_U=True)
+                return W, U, None
+            return obj(ta, tb, return_U=True, return_A=True)
     return ask
 
 
